@@ -332,3 +332,33 @@ def check(ctx):
     # ---- R18-d `async for` over the stream is receive() until EndOfStream -------------------------------------------------------------
     from .common import iteration_protocol
     iteration_protocol(ctx, "R18-d", "ByteReceiveStream")
+
+    # ---- R18-e the two directions of a socket stream are guarded separately and consistently: everything that reads holds the receive
+    # guard, everything that writes (send_eof included) holds the send guard - on TCP and UNIX streams and the datagram sockets alike
+    READS = ("receive", "receive_fds")
+    WRITES = ("send", "send_eof", "send_fds", "sendto")
+    n_g = 0
+    for cls_ in ("SocketStream", "UNIXSocketStream", "UDPSocket", "ConnectedUDPSocket", "UNIXDatagramSocket", "ConnectedUNIXDatagramSocket"):
+        for nm_, f_ in ctx.repo.methods(cls_, A).items():
+            if nm_ not in READS + WRITES:
+                continue
+            guards = [ast.unparse(i.context_expr) for w in own_walk(f_.node) if isinstance(w, ast.With) for i in w.items
+                      if ast.unparse(i.context_expr) in ("self._receive_guard", "self._send_guard")]
+            want = "self._receive_guard" if nm_ in READS else "self._send_guard"
+            n_g += 1
+            has_await = any(isinstance(x, ast.Await) for x in own_walk(f_.node))
+            # (an operation that never suspends cannot overlap with another call and needs no guard; if it has one it is its own)
+            ok = guards == [want] or (not has_await and not guards)
+            ctx.ob("R18-e", f_, f"{cls_}.{nm_} holds the guard of its own direction", ok,
+                   detail="" if ok else f"{cls_}.{nm_} runs under {guards or 'no guard'}; required {want} (a concurrent {('send' if nm_ in READS else 'receive')} "
+                                        "must stay possible, a second concurrent call in the same direction must be refused)", by=(want,))
+    ctx.floor("R18-e", "guarded socket operations", n_g, 10)
+
+    # ---- R18-f a socket handed to from_socket()/wrap_*() is switched to non-blocking mode whatever form it came in (file descriptor or
+    # socket object): the UNIX stream and the datagram sockets do raw recv()/send() and rely on BlockingIOError for back-pressure
+    vs = ctx.fn("_validate_socket", "abc/_sockets.py")
+    sname = None
+    for st_, env_ in ctx.sites(vs, "$S.setblocking(False)"):
+        sname = u(env_["S"])
+    if ctx.need("R18-f", vs, "`sock.setblocking(False)` in _validate_socket", 1 if sname else 0, 1):
+        dominates_all_exits(ctx, "R18-f", vs, f"{sname}.setblocking(False)", "every socket accepted by _validate_socket is made non-blocking")
